@@ -257,6 +257,9 @@ func manualSnippets() []string {
 }
 
 func checkC05(c *Ctx) {
+	// the deepest inputs of this check need a few GiB in the worker: a wider memory budget than the default
+	c.Pool.Env = append(c.Pool.Env, "ZNWORKER_RSS_LIMIT_MB=10240")
+	c.Pool.LongRetry = true
 	c.rule = "inputs = every prefix of every corpus/manual program, random single/multi mutations (delete, duplicate, splice, replace from a hostile alphabet), all strings up to a length bound over critical alphabets, runs of 200 … 100000 (every bracket kind also 1.5 million; thorough: 3 million) opening brackets / operators / nested block headers; each goes through syntax.Parser.Parse under a logical tick budget and, on error, through exec.DisplayError; block headers (令： 如果 每当 遍历 如何 定义 否则 再如 拦截) whose block holds only separators / comments, names written as an empty pair of backticks; plus input-variable texts through exec.ExecVarInputText (a text the compiler rejects must reach the user with the compiler's error code and the line of the offending character). distinct_nontrivial = distinct (outcome kind, error code, first 3 tree node kinds / error line) classes among inputs that are not the empty string"
 	c.assumptions = []string{"tick hooks H5 count parser progress; a budget of 64*(len+16)+2000 ticks is >10x what any accepted corpus program needs", "physical lines are split on CR, LF, CRLF, LFCR"}
 	rng := c.Rand("c05")
